@@ -49,6 +49,8 @@ type genSvc struct {
 	deployN int
 	last    *deployParams
 	allow   []string // allowlist of the last rollout-set
+	targets []string // target names of the last deploys that were expected to pass their health wait
+	sick    []string
 }
 
 func ctlTargets(rng *mrand.Rand, svc string, n *int, rollout bool) []string {
@@ -105,6 +107,9 @@ func genControl(rng *mrand.Rand, n int, tier string, w *bufio.Writer) {
 				if chance(rng, 8) {
 					ts = append(ts, "bad target!")
 				}
+				if healthy {
+					gs.targets = append(gs.targets, ts...)
+				}
 				fmt.Fprintf(w, "rollout-deploy name=%s targets=%s healthy=%s\n", hexB([]byte(name)), encList(ts), b2s(healthy))
 			case r < 86:
 				pct := pick(rng, []int{0, 1, 10, 33, 50, 66, 99, 100, -5, 150})
@@ -122,6 +127,19 @@ func genControl(rng *mrand.Rand, n int, tier string, w *bufio.Writer) {
 				genDeployLine(rng, w, name, gs, hosts, prefixes)
 			}
 			fmt.Fprintf(w, "list\nsnapshot\nprobing\n")
+			// the world: some deployed targets stop answering their probes, or recover
+			if len(gs.targets) > 0 && chance(rng, 12) {
+				k := 1 + rng.IntN(2)
+				pickd := []string{}
+				for j := 0; j < k; j++ {
+					pickd = append(pickd, gs.targets[len(gs.targets)-1-rng.IntN(min(3, len(gs.targets)))])
+				}
+				gs.sick = append(gs.sick, pickd...)
+				fmt.Fprintf(w, "sicken targets=%s\n", encList(pickd))
+			} else if len(gs.sick) > 0 && chance(rng, 25) {
+				fmt.Fprintf(w, "heal targets=%s\n", encList(gs.sick))
+				gs.sick = nil
+			}
 			// requests aimed at what the last deploy of this service bound (plain and over TLS)
 			if gs.last != nil && chance(rng, 60) {
 				h := ""
@@ -268,7 +286,7 @@ func genDeployLine(rng *mrand.Rand, w *bufio.Writer, name string, gs *genSvc, ho
 		p.redirect, p.strip = chance(rng, 60), chance(rng, 60)
 		p.acmedir = pick(rng, []string{"", "https://acme.invalid/dir"})
 		p.acmecache = pick(rng, []string{"", "certs"})
-		p.hcpath = pick(rng, []string{"/up", "/up", "/healthz", "/", ""})
+		p.hcpath = pick(rng, []string{"/up", "/up", "/healthz", "/", "", "//hc-other:80/up", "http://hc-other:80/up", "up", "/up?full=1", "/health/"})
 		p.hcint, p.hctimeout, p.resptimeout = pick(rng, []int64{1e9, 5e8, 2e9}), pick(rng, []int64{5e9, 1e9}), pick(rng, []int64{30e9, 10e9, 0})
 		p.bufreq, p.bufresp, p.fwd = chance(rng, 20), chance(rng, 20), chance(rng, 50)
 		p.maxmem, p.maxreq, p.maxresp = pick(rng, []int64{1 << 20, 0, 1024}), pick(rng, []int64{0, 10, 1 << 20}), pick(rng, []int64{0, 10, 1 << 20})
@@ -278,6 +296,12 @@ func genDeployLine(rng *mrand.Rand, w *bufio.Writer, name string, gs *genSvc, ho
 	gs.last = &cp
 	healthy := !chance(rng, 12)
 	ts := ctlTargets(rng, name, &gs.deployN, false)
+	if healthy {
+		gs.targets = append(gs.targets, ts...)
+	}
+	if chance(rng, 10) {
+		ts = append(ts, ts[0]) // the same target listed twice (a way to weight it)
+	}
 	if chance(rng, 6) {
 		ts = append(ts, pick(rng, []string{"x", "bad target", "a:b:c", "web:", ":80", "-web:80", "web:80a"}))
 	}
@@ -373,6 +397,9 @@ func (r *ctlRun) options(kv map[string]string) (ServiceOptions, TargetOptions) {
 }
 
 func (r *ctlRun) prepareTargets(names []string, healthy bool) {
+	// a bystander that always answers probes with 200: a health-check path that looks like an authority
+	// ("//hc-other:80/up") or an absolute URL must still be probed on the deployed target, not there
+	r.world.net.add("hc-other:80").setProbe("ok", 0)
 	for _, n := range names {
 		if !hostRegex.MatchString(n) {
 			continue
@@ -436,6 +463,23 @@ func (r *ctlRun) op(line string) string {
 		targets := decList(kv["targets"])
 		r.prepareTargets(targets, kv["healthy"] == "1")
 		return "res " + call(func() error { return r.router.SetRolloutTargets(name, targets, ctlDeployTimeout, ctlDrainTimeout) })
+	case "sicken", "heal":
+		// the world changes: these targets stop (or resume) answering probes, and enough time passes for every
+		// probe loop to notice
+		for _, n := range decList(kv["targets"]) {
+			if mt := r.world.net.get(n); mt != nil {
+				if op == "sicken" {
+					mt.setProbe("refuse", 0)
+				} else {
+					mt.setProbe("ok", 0)
+				}
+			}
+		}
+		if !r.realtime {
+			time.Sleep(5 * time.Second)
+			synctest.Wait()
+		}
+		return op + " ok"
 	case "rollout-set":
 		pct, _ := strconv.Atoi(kv["percent"])
 		return "res " + call(func() error { return r.router.SetRolloutSplit(name, pct, decList(kv["allow"])) })
